@@ -97,14 +97,8 @@ def worker_e(payload):
                     o["nontrivial"] += 1
             if b != want:
                 wit = {"kind": "dep-rank", "world": w.desc, "scenario": sc_json(sc), "call": j, "impl": b, "want": want, "strategy": im["strategy"]}
-                if any_combo:
-                    key = "D7:combinator-members-checked-without-bound-or-parentheses"
-                elif im["strategy"] == "keyed" and (multi_lit or b[0] == "raised"):
-                    key = "D4:lookup-table-sees-first-literal-only"
-                elif im["strategy"] == "keyed":
-                    key = "D6:overlapping-literals-first-match"
-                elif im["strategy"] == "first" and len(M) > 1:
-                    key = "D6:overlapping-literals-first-match"
+                if im["strategy"] == "keyed" and b[0] == "raised":
+                    key = "D32:unhashable-argument-on-the-literal-table-path"
                 else:
                     key = None
                 for name in ("C10", "C11"):
@@ -123,10 +117,7 @@ def worker_e(payload):
                 o = orc("C10")
                 if bounds and not any(safe_isinstance(value, B) for B in bounds):
                     wit = {"kind": "dep-rank", "world": w.desc, "scenario": sc_json(sc), "call": j, "guard": [fn, list(params), corr_e.stable_repr(value)]}
-                    if any_combo:
-                        known(o, "D7:combinator-members-checked-without-bound-or-parentheses", wit)
-                    else:
-                        o["viol"].append({"law": "user condition evaluated on a value outside its bound", **wit})
+                    o["viol"].append({"law": "user condition evaluated on a value outside its bound", **wit})
         if len(out["samples"]) < 1 and im["res"]:
             out["samples"].append({"handlers": sc["handlers"], "call": [corr_e.stable_repr(v) for v in sc["calls"][0]], "strategy": im["strategy"], "impl": im["res"][0]})
     return out
@@ -163,12 +154,31 @@ def py_spec(fw, ew, sc, regs, pos):
         os_ = [typeorder(ty(m, j), ty(m2, j)) for j in range(len(args))]
         if all(o in (Order.LESS, Order.SAME) for o in os_) and any(o is Order.LESS for o in os_):
             return True
-        if all(o is Order.SAME for o in os_) and json.dumps(m["params"]) == json.dumps(m2["params"]):
+        if all(o is Order.SAME for o in os_) and all(ty(m, j) == ty(m2, j) for j in range(len(args))):
             # identical signatures: the most recently registered wins
             return regs.index(m["id"]) > regs.index(m2["id"])
         return False
 
     winners = [m for m in app if all(m2 is m or beats(m, m2) for m2 in app)]
+    # comparable: every two applicable methods are ordered (or the same) in every position (else: finding D1)
+    comparable = all(
+        typeorder(ty(m, j), ty(m2, j)) is not Order.NONE and typeorder(ty(m2, j), ty(m, j)) is not Order.NONE
+        for m in app for m2 in app if m is not m2 for j in range(len(args))
+    )
+    py_spec.comparable = comparable
+    # value-dependent methods that are candidates at the type level but whose condition fails on these values
+    from ovld.mro import subclasscheck as _sc
+
+    def type_level(d):
+        ps = [p for p in d["params"] if p["kind"] != "ko"]
+        if len(ps) != len(args):
+            return False
+        try:
+            return all(_sc(type(v), fw.glb[f"T_{d['id']}_{p['name']}"]) for v, p in zip(args, ps))
+        except Exception:
+            return False
+
+    py_spec.failing_candidates = [sc["defs"][di]["id"] for di in regs if sc["defs"][di] not in app and type_level(sc["defs"][di])]
     if len(winners) == 1:
         return ["ran", winners[0]["id"]], len(app)
     return (["nomethod"] if not app else ["ambiguous"]), len(app)
@@ -227,10 +237,7 @@ def worker_f(payload):
                 if bad:
                     d = fw.defs_by_id[mid]
                     wit = {"kind": "fn-dep", "world": w.desc, "scenario": sc, "op_index": j}
-                    if any(combo_with_dep(p["ty"]) for p in d["params"]):
-                        known(o1, "D7:combinator-members-checked-without-bound-or-parentheses", wit)
-                    else:
-                        known(o1, "D4:lookup-table-sees-first-literal-only", wit) if any(p["ty"][0] == "lit" for p in d["params"]) else o1["viol"].append({"law": "method entered with a value its annotation excludes", "method": mid, "params": bad, **wit})
+                    o1["viol"].append({"law": "method entered with a value its annotation excludes", "method": mid, "params": bad, **wit})
             # C10 / C11: delete the methods whose condition fails, then the documented rule
             want, napp = py_spec(fw, ew, sc, regs, op[1])
             first = b["raw"][0][0] if b.get("raw") else None
@@ -248,16 +255,23 @@ def worker_f(payload):
                     kinds_of(t, ks)
                 if got[0] == "other" and got[1] == "cycle":
                     key = "D3:asymmetric-order-makes-sort_types-cyclic"
-                elif any(combo_with_dep(t) for t in alld):
-                    key = "D7:combinator-members-checked-without-bound-or-parentheses"
-                elif "lit" in ks:
-                    key = "D4D6:literal-dispatch-first-key-or-first-match"
+                elif not py_spec.comparable:
+                    key = "D1:levels-of-unrelated-types"
                 elif got == ["nomethod"] and want == ["ambiguous"]:
                     key = "D20:fallthrough-into-tied-rank-reports-no-method"
+                elif any(t[0] in ("union", "inter") for t in alld):
+                    key = "D3:asymmetric-order-of-unions-and-intersections"
+                elif py_spec.failing_candidates and got[0] == "ran" and want == ["ambiguous"]:
+                    # a dependent method whose condition fails still shapes the ranks: what it dominates sits in
+                    # a lower rank, so an ambiguity among the methods that do match goes unnoticed
+                    key = "D23:failing-dependent-method-shapes-the-ranks"
                 else:
-                    key = "D1D23:levels-and-rank-membership-with-dependent-types"
+                    key = None
                 for name in ("C10", "C11"):
-                    known(orc(name), key, wit)
+                    if key:
+                        known(orc(name), key, wit)
+                    else:
+                        orc(name)["viol"].append({"law": "delete the methods whose condition fails, then the documented rule", **wit})
         if len(out["samples"]) < 1:
             out["samples"].append({"defs": sc["defs"][:3], "last_op": sc["ops"][-1], "impl": {k: v for k, v in im[-1].items() if k in ("o", "t")}})
     return out
